@@ -1,5 +1,6 @@
-//! RLE mini-block codec: model correspondence for compress (buffers + chunk table byte for byte)
-//! and for decompress (including truncated / inconsistent chunk buffers); oracle = round trip + limits.
+//! RLE mini-block codec: model correspondence for compress (buffers + chunk table byte for byte on
+//! small inputs, word for word on large ones) and for decompress (including truncated / inconsistent
+//! chunk buffers); oracle = round trip + chunk limits.
 use crate::common::*;
 use hxlib::util::{catch, coq, Args, Rng, Sink, Stream};
 use lance_encoding::buffer::LanceBuffer;
@@ -11,40 +12,59 @@ use serde_json::json;
 
 const REQ: &str = "Common.Base Codec.Model_Bytes Codec.Model_Rle";
 
+fn run_spec(vals: &[u64]) -> String {
+    let mut spec: Vec<(u64, u64)> = vec![];
+    for v in vals {
+        match spec.last_mut() {
+            Some((x, c)) if x == v => *c += 1,
+            _ => spec.push((*v, 1)),
+        }
+    }
+    coq::list(spec.iter().map(|(v, c)| format!("({v}, {c})")))
+}
+
 pub fn run(args: &Args, sink: &mut Sink, rng: &mut Rng) {
     let mut s_enc = Stream::new("rle_encode", REQ, "chk_rle_encode", "N * list N", "outcome (list (list N) * list chunk)");
-    s_enc.shard = 12;
+    s_enc.shard = 10;
+    let mut b_enc = Budget::new(args, 110);
+    let mut s_w = Stream::new("rle_encode_w", REQ, "chk_rle_encode_w", "N * list (N * N)", "outcome (list N * list N * list chunk)");
+    s_w.shard = 3;
+    let mut b_w = Budget::new(args, 260);
     let mut s_dec = Stream::new("rle_decode", REQ, "chk_rle_decode", "N * list (list N) * N", "outcome (list N)");
-    s_dec.shard = 40;
+    s_dec.shard = 12;
+    let mut b_dec = Budget::new(args, 90);
 
     let mut inputs: Vec<(usize, Vec<u64>, String)> = vec![];
     // fixed regression inputs: the unit tests of rle.rs and the boundary shapes of the proof
     inputs.push((4, vec![1, 1, 1, 2, 2, 3, 3, 3, 3], "unit:basic".into()));
     inputs.push((4, vec![42; 1000], "unit:long-run".into()));
     inputs.push((1, vec![7], "single".into()));
-    for ts in [1usize, 2, 4, 8] {
-        inputs.push((ts, (0..3000u64).map(|i| i & mask(ts)).collect(), format!("distinct3000:{ts}")));
-        // byte budget exactly reached / exceeded by one run: 8186 / (ts+1) runs
+    for ts in [4usize, 8] {
+        // byte budget reached / exceeded by one run: 8186 / (ts+1) runs inside one 2048-value window
         let per = 8186 / (ts + 1);
         for d in [per - 1, per, per + 1] {
-            if d <= 2048 {
-                let mut v: Vec<u64> = (0..d as u64).map(|i| (i * 3 + 1) & mask(ts)).collect();
-                // make neighbours distinct even after masking
-                for i in 1..v.len() {
-                    if v[i] == v[i - 1] {
-                        v[i] = (v[i] ^ 1) & mask(ts);
-                    }
+            let mut v: Vec<u64> = (0..d as u64).map(|i| (i * 3 + 1) & mask(ts)).collect();
+            for i in 1..v.len() {
+                if v[i] == v[i - 1] {
+                    v[i] = (v[i] ^ 1) & mask(ts);
                 }
-                v.extend(std::iter::repeat(v[v.len() - 1] ^ 1).take(300));
-                inputs.push((ts, v, format!("budget:{ts}:{d}")));
             }
+            v.extend(std::iter::repeat(v[v.len() - 1] ^ 1).take(600));
+            inputs.push((ts, v, format!("budget:{ts}:{d}")));
         }
     }
-    let n_random = args.vol(70, 1500);
+    for ts in [1usize, 2] {
+        inputs.push((ts, (0..2300u64).map(|i| ((i * 7) ^ (i >> 3)) & mask(ts)).collect(), format!("distinct2300:{ts}")));
+    }
+    let n_random = args.vol(90, 2500);
     for k in 0..n_random {
         let ts = *rng.pick(&[1usize, 2, 4, 8]);
-        let n = pick_len(rng, if args.thorough() { 9000 } else { 5000 });
         let style = (k as u64) % 9;
+        let n = match k % 3 {
+            0 => rng.range(1, 90) as usize,
+            1 => *rng.pick(&[63usize, 64, 65, 127, 128, 129, 255, 256, 257, 511, 512, 513, 765]),
+            _ => pick_len(rng, if args.thorough() { 9000 } else { 4400 }),
+        };
         inputs.push((ts, gen_runs(rng, ts, n, style), format!("style{style}")));
     }
 
@@ -55,14 +75,26 @@ pub fn run(args: &Args, sink: &mut Sink, rng: &mut Rng) {
         let enc = RleMiniBlockEncoder::new();
         let r = catch(|| enc.compress(block));
         sink.count(&format!("rle:{}", kind.split(':').next().unwrap()));
-        sink.nontrivial(&format!("rle{ts}:{:?}", &vals[..vals.len().min(64)]));
+        sink.nontrivial(&format!("rle{ts}:{n}:{:?}", &vals[..vals.len().min(64)]));
         let human = json!({"codec": "rle", "ts": ts, "n": n, "kind": kind, "head": &vals[..n.min(24)]});
-        let out = match &r {
-            Ok(Ok((c, _))) => Ok(coq_compressed(c)),
-            Ok(Err(_)) => Err(false),
-            Err(_) => Err(true),
-        };
-        s_enc.push(format!("({}, {})", ts, nlist(&vals)), coq::outcome(&out), human.clone());
+        // byte-exact stream for small cases, compact stream otherwise
+        let small = n <= 300;
+        if small {
+            let out = match &r {
+                Ok(Ok((c, _))) => Ok(coq_compressed(c)),
+                Ok(Err(_)) => Err(false),
+                Err(_) => Err(true),
+            };
+            b_enc.push(&mut s_enc, format!("({}, {})", ts, nlist(&vals)), coq::outcome(&out), human.clone());
+        } else {
+            let out = match &r {
+                Ok(Ok((c, _))) if c.data.len() == 2 && c.data[0].len() % ts == 0 => Ok(format!("({}, {}, {})", nlist(&from_bytes(c.data[0].as_ref(), ts)), coq::bytes(c.data[1].as_ref()), coq_chunks(&c.chunks))),
+                Ok(Ok(_)) => Err(false),
+                Ok(Err(_)) => Err(false),
+                Err(_) => Err(true),
+            };
+            b_w.push(&mut s_w, format!("({}, {})", ts, run_spec(&vals)), coq::outcome(&out), human.clone());
+        }
 
         // oracle: chunk limits + round trip through the real decompressor, chunk by chunk
         match &r {
@@ -73,31 +105,34 @@ pub fn run(args: &Args, sink: &mut Sink, rng: &mut Rng) {
                 let back = decode_fixed_page(&dec, c);
                 oracle(sink, back.as_ref().ok() == Some(&bytes), &format!("rle round trip differs ({})", back.as_ref().err().cloned().unwrap_or_default()), human.clone());
                 // decode correspondence on the real chunks, plus perturbed requests
-                for (ci, (bufs, cn)) in split_chunks(c).into_iter().enumerate() {
-                    if ci > 2 && !rng.chance(1, 4) {
+                for (bufs, cn) in split_chunks(c).into_iter() {
+                    if bufs[0].len() > 700 && !rng.chance(1, 12) {
                         continue;
                     }
                     let mut reqs = vec![(bufs.clone(), cn)];
                     if rng.chance(1, 3) {
                         reqs.push((bufs.clone(), rng.range(0, cn)));
                     }
-                    if rng.chance(1, 6) {
+                    if rng.chance(1, 6) && cn < 400 {
                         reqs.push((bufs.clone(), cn + rng.range(1, 300)));
                     }
-                    if rng.chance(1, 8) && bufs[1].len() > 1 {
+                    if rng.chance(1, 6) && bufs[1].len() > 1 {
                         // drop the last run length: inconsistent buffers
                         let l = bufs[1].len();
                         reqs.push((vec![bufs[0].clone(), LanceBuffer::from(bufs[1].as_ref()[..l - 1].to_vec())], cn));
                     }
-                    if rng.chance(1, 8) && ts > 1 {
+                    if rng.chance(1, 6) && ts > 1 {
                         let l = bufs[0].len();
                         reqs.push((vec![LanceBuffer::from(bufs[0].as_ref()[..l - 1].to_vec()), bufs[1].clone()], cn));
                     }
                     if rng.chance(1, 10) {
                         reqs.push((vec![LanceBuffer::from(Vec::<u8>::new()), bufs[1].clone()], cn));
                     }
+                    if rng.chance(1, 12) {
+                        reqs.push((vec![bufs[0].clone()], cn));
+                    }
                     for (b, nreq) in reqs {
-                        if b[0].len() > 3000 && !rng.chance(1, 5) {
+                        if nreq * ts as u64 > 6000 {
                             continue;
                         }
                         let dec = RleMiniBlockDecompressor::new((ts * 8) as u64);
@@ -109,14 +144,17 @@ pub fn run(args: &Args, sink: &mut Sink, rng: &mut Rng) {
                             Ok(Err(_)) => Err(false),
                             Err(_) => Err(true),
                         };
-                        sink.count("rle:decode-case");
-                        s_dec.push(format!("({}, {}, {})", ts, coq_bufs(&b), nreq), coq::outcome(&o), json!({"codec": "rle-decode", "ts": ts, "n": nreq, "sizes": [b[0].len(), b[1].len()]}));
+                        if b_dec.push(&mut s_dec, format!("({}, {}, {})", ts, coq_bufs(&b), nreq), coq::outcome(&o), json!({"codec": "rle-decode", "ts": ts, "n": nreq, "sizes": b.iter().map(|x| x.len()).collect::<Vec<_>>()})) {
+                            sink.count("rle:decode-case");
+                        }
                     }
                 }
             }
             _ => oracle(sink, false, "rle compress failed on a valid block", human.clone()),
         }
     }
+    sink.count_n("rle:skipped-for-budget", b_enc.skipped + b_w.skipped + b_dec.skipped);
     sink.add(s_enc);
+    sink.add(s_w);
     sink.add(s_dec);
 }
